@@ -160,8 +160,11 @@ func c18Transport(r *rng, id string, alist []string, oracle func(net.IP) bool) b
 	feed(ml.VerifEncodeAlive(uint32(1+r.intn(3)), "n1", pool.addrs[inner], 7946, nil, vsn), ua)
 	// sentinel behind it on the same queue, from an address and about an address every list allows
 	feed(ml.VerifEncodeAlive(1, "zz", pool.addrs[2], 7946, nil, vsn), fromAddr)
-	for i := 0; i < 4000 && !has("zz"); i++ {
+	for i := 0; i < 100000 && !has("zz"); i++ {
 		time.Sleep(100 * time.Microsecond)
+	}
+	if !has("zz") && pan == 0 {
+		return false // the sentinel never came through (an overloaded machine): no verdict from this carrier
 	}
 	listed := 0
 	for _, n := range m.Members() {
